@@ -186,6 +186,7 @@ def dispatch (fn : String) (j : Json) : P Json := do
   | "mapper" => mapperFn j
   | "clientProtocol" => clientProtocolFn j
   | "fieldType" => fieldTypeFn j
+  | "names" => namesFn j
   | _ => throw s!"unknown fn {fn}"
 
 def handle (line : String) : String :=
